@@ -1,6 +1,7 @@
 import RosuModel.Model.ManiaPattern
 import RosuModel.Model.PipelineMania
 import RosuModel.Model.Sort
+import RosuModel.Model.Rng
 
 /-!
 # osu! → mania CONVERT end to end: decoded osu! objects → `ManiaDifficultyAttributes`.  Core only.
@@ -159,6 +160,31 @@ def applyInvert (pts : List (R × R)) (total : S) (cols : Nat) (l : List (HitObj
   ((List.range cols).mapM fun c => invertColumn pts (l.filter fun h => column P h.x total = c)).map
     fun cs => sortByStart cs.flatten
 
+/-! ## the Random mod (`RandomMania { seed }`): `apply_random_to_beatmap` -/
+
+/-- `n` successive `rng.next()` draws (`sort_by_cached_key` evaluates the key once per element, in
+order) -/
+def csDraws : Nat → Rosu.Rng.Csharp → List Int
+  | 0, _ => []
+  | n + 1, s => s.next.1 :: csDraws n s.next.2
+
+/-- stable insertion by key -/
+def insertKeyed (p : Int × Nat) : List (Int × Nat) → List (Int × Nat)
+  | [] => [p]
+  | q :: qs => if q.1 ≤ p.1 then q :: insertKeyed p qs else p :: q :: qs
+
+/-- `shuffled_columns`: `(0..total as u8)` stably sorted by its cached random keys -/
+def shuffledColumns (seed : Int) (n : Nat) : List Nat :=
+  (((csDraws n (Rosu.Rng.Csharp.new seed)).zip (List.range n)).foldl (fun acc p => insertKeyed p acc) []).map (·.2)
+
+/-- `apply_random_to_beatmap(map, seed)`: every object moves to column `shuffled[old_column]`
+(checked index); `total` = `map.cs`, `n` = `map.cs as u8` -/
+def applyRandom (seed : Int) (total : S) (n : Nat) (l : List (HitObj R S)) : Option (List (HitObj R S)) :=
+  let sh := shuffledColumns seed n
+  l.mapM fun h =>
+    (sh[column P h.x total]?).map fun c =>
+      { h with x := -(P.floor (-(X.ofNatS c * ((512.0 : S) / total)))) }
+
 /-! ## preparation and attributes -/
 
 /-- `ManiaObject::new` on a converted object -/
@@ -182,6 +208,8 @@ structure Settings (R S : Type) where
   invert : Bool
   /-- timing points `(time, beat_len)` (read by Invert only) -/
   timing : List (R × R)
+  /-- `mods.random_seed()` -/
+  randomSeed : Option Int := none
 
 inductive Out (α : Type) where
   | ok (a : α)
@@ -202,7 +230,10 @@ def preparedOf (PA : PArith R) (fuel : Nat) (st : Settings R S) (objs : List (SO
     let csF : S := X.ofNatS keys
     let hits := if st.holdOff then applyHoldOff hits else hits
     let hits' := if st.invert then applyInvert P st.timing csF (P.toUsize csF) hits else some hits
-    match hits' with
+    let hits'' := match hits', st.randomSeed with
+      | some hs, some seed => applyRandom P X seed csF (P.toUsize csF % 256) hs
+      | h, _ => h
+    match hits'' with
     | none => .panic
     | some hs =>
       let total := totalColumns P csF
